@@ -704,6 +704,7 @@ Proof.
       change (pp_parts (new_path f t) = pp_parts (pf_rel f)). rewrite Eq. reflexivity.
     + destruct (contained (c_var c) (w_fs w) f (new_path f t)) as [[|]|]; try (intros E; discriminate E).
       destruct (parents_contained (w_fs w) f (new_path f t)) as [[|]|]; try (intros E; discriminate E).
+      destruct (source_contained (w_fs w) f) as [[|]|]; try (intros E; discriminate E).
       destruct (renamer c w (pf_dir f) (pf_rel f) (new_path f t) false) as [w1 [e1|]] eqn:R.
       * destruct (is_file_exists e1); [|intros E; discriminate E].
         change ((pf_dir f, pf_rel f, new_path f t) :: map pend blE) with (map pend ((f, RText t) :: blE)).
@@ -836,7 +837,8 @@ Qed.
 Lemma containment_ok D f t P x :
   In (f, RText t) plan -> Inv D ((f, RText t) :: P) x ->
   lookup x (dst_key f t) = None -> (length (src_key f) <= walk_fuel)%nat ->
-  contained (c_var c) x f (new_path f t) = Some true /\ parents_contained x f (new_path f t) = Some true.
+  contained (c_var c) x f (new_path f t) = Some true /\ parents_contained x f (new_path f t) = Some true /\
+  source_contained x f = Some true.
 Proof.
   intros Hin I Hfree Hlen.
   pose proof (plan_entry _ Hin) as [Hroot [_ [Hddp [_ [_ Ht]]]]].
@@ -873,24 +875,35 @@ Proof.
       intros pre post E Hpost. apply (Above pre post); [rewrite <- Dk; symmetry; exact E | exact Hpost]. }
   assert (Hpos : (0 < walk_fuel)%nat).
   { pose proof Lk as Z. rewrite Dk in Z. rewrite app_length in Z. simpl in Z. unfold name in *. lia. }
-  split.
+  assert (Hex : exists_ x [] {| up_abs := true; up_comps := d ++ rp |} = true).
+  { unfold exists_.
+    assert (Hc : d ++ rp = [] \/ d ++ rp <> []) by (destruct (d ++ rp); [left; reflexivity | right; discriminate]).
+    destruct Hc as [Eq|Eq].
+    - rewrite Eq. rewrite (resolve_nil x [] {| up_abs := true; up_comps := [] |} true); [reflexivity | exact Hpos | reflexivity].
+    - pose proof (resolve_plain x [] {| up_abs := true; up_comps := d ++ rp |} true) as R1.
+      cbn [up_abs up_comps app] in R1. cbv zeta in R1.
+      assert (Z : lookup x (d ++ rp) = Some NDir).
+      { apply (Above (d ++ rp) [t]); [reflexivity | discriminate]. }
+      rewrite Z in R1. rewrite R1; [reflexivity | | exact Eq | exact Hddrp | | right; intros; discriminate].
+      + rewrite Dk in Lk. rewrite app_length in Lk. simpl in Lk. unfold name in *. lia.
+      + intros pre post E Hpost. apply (Above pre (post ++ [t])); [|destruct post; discriminate].
+        rewrite app_assoc, <- E. reflexivity. }
+  split; [|split].
   - unfold contained. rewrite Tg, Rp, Cv. cbn [fixed v_component_containment]. f_equal.
     apply is_prefix_path_spec. exists (rp ++ [t]). reflexivity.
   - unfold parents_contained. rewrite Tg. rewrite Dk, removelast_last.
-    assert (Hex : exists_ x [] {| up_abs := true; up_comps := d ++ rp |} = true).
-    { unfold exists_.
-      assert (Hc : d ++ rp = [] \/ d ++ rp <> []) by (destruct (d ++ rp); [left; reflexivity | right; discriminate]).
-      destruct Hc as [Eq|Eq].
-      - rewrite Eq. rewrite (resolve_nil x [] {| up_abs := true; up_comps := [] |} true); [reflexivity | exact Hpos | reflexivity].
-      - pose proof (resolve_plain x [] {| up_abs := true; up_comps := d ++ rp |} true) as R1.
-        cbn [up_abs up_comps app] in R1. cbv zeta in R1.
-        assert (Z : lookup x (d ++ rp) = Some NDir).
-        { apply (Above (d ++ rp) [t]); [reflexivity | discriminate]. }
-        rewrite Z in R1. rewrite R1; [reflexivity | | exact Eq | exact Hddrp | | right; intros; discriminate].
-        + rewrite Dk in Lk. rewrite app_length in Lk. simpl in Lk. unfold name in *. lia.
-        + intros pre post E Hpost. apply (Above pre (post ++ [t])); [|destruct post; discriminate].
-          rewrite app_assoc, <- E. reflexivity. }
     destruct (length (d ++ rp)); cbn [new_dirs_inside]; rewrite Hex; reflexivity.
+  - (* the directory the source lives in is a plain directory path below the input directory *)
+    unfold source_contained, source_parent. rewrite Hroot. cbn [Nat.eqb]. fold d rp.
+    rewrite realpath_plain.
+    + f_equal. apply is_prefix_path_spec. exists rp. reflexivity.
+    + exact Hddrp.
+    + intros pre c0 post E i tg L.
+      assert (Z : lookup x (pre ++ [c0]) = Some NDir).
+      { apply (Above (pre ++ [c0]) (post ++ [t])); [|destruct post; discriminate].
+        rewrite E, <- !app_assoc. reflexivity. }
+      rewrite Z in L. discriminate.
+    + intros K. unfold exists_ in Hex. rewrite K in Hex. discriminate.
 Qed.
 
 Lemma renamer_free D f t P w :
@@ -944,7 +957,7 @@ Proof.
         apply ppath_eqb_spec in X. congruence. }
       pose proof (dst_free_now D f t rest _ AF Hin I Hne) as Hfree.
       destruct AF as [AF1 AF2]. destruct (AF1 f t Hin Hne) as [_ Hlen].
-      destruct (containment_ok D f t rest _ Hin I Hfree Hlen) as [Ct Pc]. rewrite Ct, Pc.
+      destruct (containment_ok D f t rest _ Hin I Hfree Hlen) as [Ct [Pc Sc]]. rewrite Ct, Pc, Sc.
       destruct (renamer_free D f t rest w Hin I Hfree) as [w1 R]. rewrite R.
       apply (IH w1 _ ((f, RText t) :: D)). apply (renamer_step D f t _ w w1 Hin I R).
 Qed.
